@@ -217,7 +217,7 @@ columnConstraint:
 		$$ = ccUnique(true)
 	} |
 	CHECK '(' expr ')' {
-		$$ = ccCheck{expr: $3}
+		$$ = ccCheck{expr: unparen($3)}
 	} |
 	DEFAULT signedNumber {
 		$$ = ccDefault($2)
@@ -456,7 +456,7 @@ where:
 		$$ = nil
 	} |
 	WHERE expr {
-		$$ = $2
+		$$ = unparen($2)
 	}
 
 expr:
@@ -482,19 +482,19 @@ expr:
 		$$ = ExColumn($1)
 	} |
 	expr tOperator expr {
-		$$ = ExBinaryOp{$2, $1, $3}
+		$$ = ExBinaryOp{$2, unparen($1), unparen($3)}
 	} |
 	expr '*' expr {
-		$$ = ExBinaryOp{"*", $1, $3}
+		$$ = ExBinaryOp{"*", unparen($1), unparen($3)}
 	} |
 	expr '+' expr {
-		$$ = ExBinaryOp{"+", $1, $3}
+		$$ = ExBinaryOp{"+", unparen($1), unparen($3)}
 	} |
 	expr '-' expr {
-		$$ = ExBinaryOp{"-", $1, $3}
+		$$ = ExBinaryOp{"-", unparen($1), unparen($3)}
 	} |
 	'(' expr ')' {
-		$$ = $2
+		$$ = parenExpr{unparen($2)}
 	}
 
 exprList:
@@ -502,10 +502,10 @@ exprList:
 		$$ = nil
 	} |
 	expr {
-		$$ = []Expression{$1}
+		$$ = []Expression{unparen($1)}
 	} |
 	exprList ',' expr {
-		$$ = append($1, $3)
+		$$ = append($1, unparen($3))
 	}
 
 selectStmt:
